@@ -45,18 +45,20 @@ const c06Charset = "abcdefghijklmnopqrstuvwxyzABCDEFGHIJKLMNOPQRSTUVWXYZ01234567
 
 func c06Collect(n int) ([]c06Login, error) {
 	var cnt int64
-	return c06CollectWith(n, countingStore{n: &cnt}, false)
+	return c06CollectWith(n, countingStore{n: &cnt}, false, "")
 }
 
 // c06CollectChain: one browser that never completes a login: every request presents the cookie of the previous
 // login redirect (a real memory store holds the pending logins), so each redirect is issued "on top of" an earlier one.
 func c06CollectChain(n int) ([]c06Login, error) {
 	clock := oidc.Clock{}
-	return c06CollectWith(n, oidc.NewMemoryStore(&clock, 0, 0), true)
+	return c06CollectWith(n, oidc.NewMemoryStore(&clock, 0, 0), true, "")
 }
 
-func c06CollectWith(n int, store oidc.SessionStore, chain bool) ([]c06Login, error) {
-	cfg := &configv1.Config{Chains: []*configv1.FilterChain{{Name: "c", Filters: []*configv1.Filter{{Type: &configv1.Filter_Oidc{Oidc: c08OIDC()}}}}}}
+func c06CollectWith(n int, store oidc.SessionStore, chain bool, cookiePrefix string) ([]c06Login, error) {
+	oc := c08OIDC()
+	oc.CookieNamePrefix = cookiePrefix
+	cfg := &configv1.Config{Chains: []*configv1.FilterChain{{Name: "c", Filters: []*configv1.Filter{{Type: &configv1.Filter_Oidc{Oidc: oc}}}}}}
 	f := server.NewExtAuthZFilter(cfg, c08Pool, nil, countingFactory{store})
 	var out []c06Login
 	cookie := ""
@@ -263,6 +265,17 @@ func c06Run(run *ev.Run) {
 	}
 	logins = append(logins, chain...)
 	run.Extra["logins_on_top_of_a_pending_login"] = len(chain)
+	// ... and pairs of logins at filters whose (public) cookie-name prefix is unusually long: what is public must not
+	// take the place of what is random
+	for _, pl := range []int{24, 40, 53, 61, 64, 66, 100} {
+		var cnt int64
+		two, err := c06CollectWith(2, countingStore{n: &cnt}, false, strings.Repeat("p", pl))
+		if err != nil {
+			run.HarnessError("C06 collect (long prefix): " + err.Error())
+			return
+		}
+		logins = append(logins, two...)
+	}
 	var cands int64
 	report := func(i int, h *c06Hit) {
 		run.Violation(fmt.Sprintf("C06 predictable target=%s attack=%s", h.Target, h.Attack), fmt.Sprintf("login %d: %s", i, h.Detail),
@@ -277,7 +290,7 @@ func c06Run(run *ev.Run) {
 			wantLen := 20
 			okc := len(v) >= wantLen
 			for _, ch := range v {
-				if !strings.ContainsRune(c06Charset+"-_", ch) {
+				if !strings.ContainsRune(c06Charset+"-_.~", ch) {
 					okc = false
 				}
 			}
